@@ -102,7 +102,19 @@ def replay_encoder(fmt, m, E):
 
 
 def replay_decoder(fmt, variant, m, D):
+    """The counterexample through the real front end of a new decoder; if that agrees with the specification, the same input
+    once more through the same decoder (a decoder with a history: the property holds for every history)."""
     dec = D.NMEA2000Decoder()
+    rp = _replay_decoder_once(fmt, variant, m, dec)
+    if not rp.get('confirmed'):
+        rp2 = _replay_decoder_once(fmt, variant, m, dec)
+        if rp2.get('confirmed'):
+            rp2['how'] += '; second delivery of the same input to the same decoder (the first one behaved as specified)'
+            return rp2
+    return rp
+
+
+def _replay_decoder_once(fmt, variant, m, dec):
     calls = []
 
     def fake(pgn, priority, source_id, destination_id, timestamp, can_data, raw_can_data, already_combined=False):
